@@ -293,7 +293,15 @@ class Statement(object):
             self.code_pkg.additional = self.operand.value.calculate_address_offset(statements)
 
         if self.operand.value.is_address():
-            self.code_pkg.additional = statements[self.operand.value.int].code_pkg.address
+            address = statements[self.operand.value.int].code_pkg.address
+            if self.operand.is_immediate() and not self.instruction.is_16_bit:
+                if address.int > 0xFF:
+                    raise TranslationError("Address of [{}] does not fit in an 8-bit immediate value".format(
+                        self.operand.operand_string), self)
+                self.code_pkg.additional = NumericValue(address.int, size_hint=2)
+            else:
+                # the operand field of an extended, extended indirect or 16-bit immediate operand is always two bytes
+                self.code_pkg.additional = NumericValue(address.int, size_hint=4)
 
         if self.code_pkg.additional_needs_resolution:
             if self.operand.is_indexed() and self.operand.left and self.operand.left.is_address_expression():
